@@ -1,7 +1,9 @@
 """C10 - state resolution returns the state the room version's algorithm defines.
 Room.tla builds room DAGs (honest servers, forks of any shape); StateRes.tla transcribes v1 / v2 / v2.1 stage by
 stage; every fork pair of every reachable room is a resolution query replayed through ResolveConflictsNew and
-ResolveStateConflictsV2New."""
+ResolveStateConflictsV2New.  In the other direction a seeded driver grows larger rooms (up to ~28 events, pairs and
+triples of state sets, all three algorithms) with real events / auth / resolution and StateRes_trace.tla
+recomputes every logged result."""
 from vlib import room
 
 
@@ -13,3 +15,4 @@ def run(ctx):
     ctx.notes["plans"] = [list(p) for p in room.plans(ctx.tier)]
     recs = room.generate(ctx)
     ctx.replay_and_compare("c10", recs)
+    room.record_and_validate(ctx, 500 if ctx.tier == "quick" else 8000)
